@@ -166,7 +166,37 @@ class Gen:
                     self.names[nm] = e
         return self
 
+    def try_array_literal(self, pos):
+        """An array formula whose value is a constant row narrower than (or as
+        wide as) its range: the rest is padded with #N/A."""
+        b, s, c, r = pos
+        h, w = self.rnd.choice([(1, 3), (2, 3), (2, 2), (1, 2)])
+        k = self.rnd.randint(1, w)
+        if c + w - 1 > self.grid[0] or r + h - 1 > self.grid[1]:
+            return False
+        ids = [[cid(b, s, c + j, r + i) for j in range(w)] for i in range(h)]
+        flat = [x for row in ids for x in row]
+        if any(x in self.cells or x in self.reserved for x in flat):
+            return False
+        arr = {'k': 'a', 'rows': [[norm(self.rnd.choice(NUMS)) for _ in range(k)]]}
+        if k == 1:
+            arr = arr['rows'][0][0]
+        anchor = ids[0][0]
+        self.cells[anchor] = {'k': 'af', 'e': ['c', arr], 'r': h, 'c': w,
+                              'rect': [b, s, c, r, c + w - 1, r + h - 1]}
+        self.order.append(anchor)
+        for i in range(h):
+            for j in range(w):
+                if (i, j) != (0, 0):
+                    x = ids[i][j]
+                    self.cells[x] = {'k': 'sp', 'anchor': anchor, 'i': i + 1, 'j': j + 1}
+                    self.order.append(x)
+                self.reserved.add(ids[i][j])
+        return True
+
     def try_array(self, pos):
+        if 'array-literal' in self.features and self.rnd.random() < 0.5:
+            return self.try_array_literal(pos)
         b, s, c, r = pos
         h, w = self.rnd.choice([(2, 1), (1, 2), (2, 2), (3, 1)])
         if c + w - 1 > self.grid[0] or r + h - 1 > self.grid[1]:
@@ -262,6 +292,8 @@ def expr_text(g, e, host, qualify='min', rnd=None):
     k = e[0]
     if k == 'c':
         v = e[1]
+        if v['k'] == 'a':
+            return '{%s}' % ';'.join(','.join(V.lit(x) for x in row) for row in v['rows'])
         t = V.lit(v)
         if v['k'] == 'n' and v['n'] < 0:
             t = '(%s)' % t
